@@ -31,7 +31,9 @@ DecEdtsV(b, k) == LET ks == Kids(b, PayloadLo(k), PayloadHi(k)).kids IN
 \* ---- stsd ---------------------------------------------------------------------------
 EncStsdV(v) ==
   Full(STSD, v.version, v.flags,
-       BE(1, 4) \o OptEnc(v.avc1, EncAvc1) \o OptEnc(v.hev1, EncHev1) \o OptEnc(v.vp09, EncVp09)
+       \* entry_count = the number of sample entries that follow (the value holds at most one)
+       BE(IF v.avc1.some \/ v.hev1.some \/ v.vp09.some \/ v.mp4a.some \/ v.tx3g.some THEN 1 ELSE 0, 4)
+       \o OptEnc(v.avc1, EncAvc1) \o OptEnc(v.hev1, EncHev1) \o OptEnc(v.vp09, EncVp09)
        \o OptEnc(v.mp4a, EncMp4a) \o OptEnc(v.tx3g, EncTx3g))
 DecStsdV(b, k) ==
   LET e == DecStsdEntry(b, k)
